@@ -10,11 +10,13 @@
     * the windowless Integral is the cumulative sum;
     * TR returns the true range against the previous close; HeikinAshi's open follows
       `open' = (open + ohlc4)/2`.
-  TSI, Vidya and the windowless ADI are at present covered by the correspondence run only
+    * TSI is the quotient of the doubly smoothed changes and doubly smoothed absolute changes (`C03_tsi`).
+  Vidya and the windowless ADI are at present covered by the correspondence run only
   (Rust vs exact model and vs the from-scratch spec of `YataModel/Spec.lean` on every step).
 -/
 import YataProofs.Numeric.EMA
 import YataProofs.Numeric.Simple
+import YataProofs.Numeric.TSI
 import YataModel.Methods.Candles
 namespace Yata.C03
 open Yata
@@ -63,6 +65,14 @@ theorem C03_tema (a v : K) (xs : List K) :
         outs[i] = 3 * (e1 a v (xs.take (i + 1)) - e2 a v (xs.take (i + 1))) + e3 a v (xs.take (i + 1)) :=
   TEMA.run_spec a v xs
 
+/-- TSI: EMA_short(EMA_long(change)) / EMA_short(EMA_long(|change|)), all seeded with 0, and `0` exactly when the
+    denominator is not positive (no absolute threshold) — for every stream and position -/
+theorem C03_tsi {P short long : Nat} (v : K) (hs0 : 0 < short) (hs : short ≤ P - 1) (hl0 : 0 < long) (hl : long ≤ P - 1)
+    (xs : List K) :
+    ∃ s0 outs s', TSI.new P short long v = .ok s0 ∧ runM (liftNext TSI.next) s0 xs = .ok (outs, s') ∧
+      outs.length = xs.length ∧ ∀ i (hi : i < outs.length), outs[i] = Spec.tsi short long v (xs.take (i + 1)) :=
+  TSI.spec v hs0 hs hl0 hl xs
+
 /-- windowless Integral: the cumulative sum of everything fed -/
 theorem C03_integral0 {P : Nat} (hP : 0 < P) (v : K) (xs : List K) :
     ∃ s0 outs s', Integral.new P 0 v = .ok s0 ∧ runM Integral.next s0 xs = .ok (outs, s') ∧
@@ -97,3 +107,4 @@ end Yata.C03
 #print axioms Yata.C03.C03_integral0
 #print axioms Yata.C03.C03_tr
 #print axioms Yata.C03.C03_heikin_ashi
+#print axioms Yata.C03.C03_tsi
